@@ -309,9 +309,10 @@ def main_check(prop_id, tier, seed):
         for interp, v, out in nonrepro[:5]:
             sys.stderr.write("HARNESS-ERROR: violation did not reproduce on replay (interp=%s): %s\n%s\n" % (
                 interp, json.dumps(v, default=str)[:800], out))
-        return 2
     if confirmed:
         return 1
+    if nonrepro:
+        return 2
     if harness_errors:
         return 2
     return 0
